@@ -2099,6 +2099,8 @@ package goatlang
 //@   ensures#span c.Optimize ==> optimized(defBlock)
 //@   assert#nobreak @10 forall p int :: 0 <= p && p < len(defBlock) ==> defBlock[p].Code != codeBreak
 //@   assert#span @L1.4 c.Optimize ==> optimized(csStmt) && optimized(csBlock)
+//@   assert#breaktarget @C06 @L2.0 ins.Code == codeBreak ==> csBlock[n].Code == codeJump && int(csBlock[n].A) == (len(csBlock) - n) + len(out) + len(defBlock)
+//@   assert#defbreaktarget @C06 @L0.0 ins.Code == codeBreak ==> defBlock[n].Code == codeJump && int(defBlock[n].A) == len(defBlock) - n - 1
 //@ func (*compiler).compile case "switch" loop 0
 //@   invariant forall p int :: 0 <= p && p < rangeidx ==> defBlock[p].Code != codeBreak
 //@   invariant wfC(c) && c.Locals == old(c.Locals) && c.Globals == old(c.Globals) && len(c.scope) == old(len(c.scope)) + 2 && len(c.Locals.data) >= old(len(c.Locals.data)) && len(c.Returns) == old(len(c.Returns)) && c.Optimize == old(c.Optimize) && tokensKept() && (c.Optimize ==> optimized(defBlock))
